@@ -182,7 +182,7 @@ Qed.
 
 (* ---------------------------------------------------------------- Fenwick tree: unit responses *)
 
-(* For every tree size n <= 24, every index i and every query q below n: adding 1 at i to an empty tree makes the prefix
+(* For every tree size n <= 64, every index i and every query q below n: adding 1 at i to an empty tree makes the prefix
    sum up to q equal to [i <= q].  (Finite sweep, evaluated by the kernel's vm_compute.) *)
 Definition fw_unit_ok (n i q : Z) : bool :=
   match fw_add (fw_new n) i 1 with
@@ -196,7 +196,7 @@ Definition fw_sweep (bound : nat) : bool :=
   forallb (fun n => forallb (fun i => forallb (fun q =>
      if (i <? n) && (q <? n) then fw_unit_ok n i q else true) (zrange bound)) (zrange bound)) (zrange (S bound)).
 
-Lemma fw_sweep_24 : fw_sweep 24 = true.
+Lemma fw_sweep_64 : fw_sweep 64 = true.
 Proof. vm_compute. reflexivity. Qed.
 
 Lemma in_zrange z n : 0 <= z < Z.of_nat n -> In z (zrange n).
@@ -204,12 +204,24 @@ Proof.
   intros H. unfold zrange. apply in_map_iff. exists (Z.to_nat z). split; [lia|]. apply in_seq. lia.
 Qed.
 
-Theorem fw_unit_response n i q :
-  0 <= n <= 24 -> 0 <= i < n -> 0 <= q < n -> fw_unit_ok n i q = true.
+Lemma fw_sweep_forall bound :
+  fw_sweep bound = true ->
+  forall n, In n (zrange (S bound)) -> forall i, In i (zrange bound) -> forall q, In q (zrange bound) ->
+  (if (i <? n) && (q <? n) then fw_unit_ok n i q else true) = true.
 Proof.
-  intros Hn Hi Hq. pose proof fw_sweep_24 as H. unfold fw_sweep in H.
-  rewrite forallb_forall in H. specialize (H n (in_zrange n 25 ltac:(lia))).
-  rewrite forallb_forall in H. specialize (H i (in_zrange i 24 ltac:(lia))).
-  rewrite forallb_forall in H. specialize (H q (in_zrange q 24 ltac:(lia))).
+  intros H n Hn i Hi q Hq. unfold fw_sweep in H.
+  rewrite forallb_forall in H. specialize (H n Hn).
+  rewrite forallb_forall in H. specialize (H i Hi).
+  rewrite forallb_forall in H. exact (H q Hq).
+Qed.
+
+Theorem fw_unit_response n i q :
+  0 <= n <= 64 -> 0 <= i < n -> 0 <= q < n -> fw_unit_ok n i q = true.
+Proof.
+  intros Hn Hi Hq.
+  assert (H1 : 0 <= n < Z.of_nat (S 64)) by lia.
+  assert (H2 : 0 <= i < Z.of_nat 64) by lia.
+  assert (H3 : 0 <= q < Z.of_nat 64) by lia.
+  pose proof (fw_sweep_forall 64 fw_sweep_64 n (in_zrange n (S 64) H1) i (in_zrange i 64 H2) q (in_zrange q 64 H3)) as H.
   replace ((i <? n) && (q <? n)) with true in H by lia. exact H.
 Qed.
